@@ -73,12 +73,32 @@ package trend
 //@ ensures[C02] len(result) == max(0, len(c) - (m.IdlePeriod()))
 //@ ensures[C03] consumed(c) == len(c) && closed(result)
 //@ ensures[C04] forall kk :: 0 <= kk && kk < len(result) ==> hor(result, kk) <= hor(c, kk + (m.IdlePeriod()))
+//@ ensures[C01,C15] "window-extremum" forall k :: 0 <= k && k < len(result) ==> result[k] == wmaxS(c, k, k + m.Period)
+//@ lit#0 invariant count == calls
+//@ lit#0 invariant forall v real :: bcount(bst, v) == wcount(cs[0], pos(calls - m.Period), calls, v)
+//@ lit#0 yields wmaxS(cs[0], pos(calls + 1 - m.Period), calls + 1)
+//@ lit#0 use wcount_dropfirst(cs[0], calls - m.Period, calls + 1, _)
+//@ lit#0 use wcount_member(cs[0], calls - m.Period, calls, calls - m.Period)
+//@ lit#0 thenuse wcount_member(cs[0], pos(calls + 1 - m.Period), calls + 1, _)
+//@ lit#0 thenuse wcount_witness(cs[0], pos(calls + 1 - m.Period), calls + 1, ret)
+//@ lit#0 thenuse wmax_char(cs[0], pos(calls + 1 - m.Period), calls + 1, ret)
+//@ use wmax_cong(cs[0], c, _, _)
 
 //@ func MovingMin.Compute
 //@ requires m.Period >= 1 && consumed(c) == 0
 //@ ensures[C02] len(result) == max(0, len(c) - (m.IdlePeriod()))
 //@ ensures[C03] consumed(c) == len(c) && closed(result)
 //@ ensures[C04] forall kk :: 0 <= kk && kk < len(result) ==> hor(result, kk) <= hor(c, kk + (m.IdlePeriod()))
+//@ ensures[C01,C15] "window-extremum" forall k :: 0 <= k && k < len(result) ==> result[k] == wminS(c, k, k + m.Period)
+//@ lit#0 invariant count == calls
+//@ lit#0 invariant forall v real :: bcount(bst, v) == wcount(cs[0], pos(calls - m.Period), calls, v)
+//@ lit#0 yields wminS(cs[0], pos(calls + 1 - m.Period), calls + 1)
+//@ lit#0 use wcount_dropfirst(cs[0], calls - m.Period, calls + 1, _)
+//@ lit#0 use wcount_member(cs[0], calls - m.Period, calls, calls - m.Period)
+//@ lit#0 thenuse wcount_member(cs[0], pos(calls + 1 - m.Period), calls + 1, _)
+//@ lit#0 thenuse wcount_witness(cs[0], pos(calls + 1 - m.Period), calls + 1, ret)
+//@ lit#0 thenuse wmin_char(cs[0], pos(calls + 1 - m.Period), calls + 1, ret)
+//@ use wmin_cong(cs[0], c, _, _)
 
 //@ func Wma.Compute
 //@ requires w.Period >= 1 && consumed(values) == 0
